@@ -50,6 +50,7 @@ const (
 	bhNilBodyOK   = "ok_empty_body"  // OK status with empty body
 	bhSeveral     = "several_frames" // two frames for a single-header request
 	bhCaseChain   = "chain_case"     // header whose chain id differs only in case
+	bhShiftInside = "shift_inside"   // a run that starts late but still ends inside the requested window
 )
 
 type peerReqLog struct {
@@ -286,6 +287,17 @@ func (p *scriptedPeer) handle(s network.Stream) {
 			from = 1
 		}
 		send(p.chain.Range(uint64(from), uint64(from)+uint64(max(len(honest), 1))))
+	case bhShiftInside:
+		if len(honest) < 2 {
+			send(honest)
+			return
+		}
+		s0 := 1 + abs(b.K)%(len(honest)-1)
+		out := honest[s0:]
+		if b.DelayMs%2 == 1 && len(out) > 1 {
+			out = out[:len(out)-1]
+		}
+		send(out)
 	case bhRepeatPrev:
 		n := uint64(max(len(honest), 1))
 		from := uint64(1)
